@@ -21,7 +21,7 @@
   `Table.plain` (every feature a forward range, or alone in its class and not a `Joined`)
   excludes K12A, K12B, K12D, K12E at once.
 -/
-import Gts.Lemmas.RepairRestore
+import Gts.Lemmas.RepairRoundTrip
 namespace Gts.C12
 open Gts Loc
 
@@ -271,14 +271,8 @@ example : Table.wfT [gene (compl (ranged 0 3 false false)), gene (compl (ranged 
 
 /-! ### (g) restoration -/
 
-/-- the pieces of `s` between consecutive cut points -/
-def cutPieces (s : Seq) : List Int → List Seq
-  | a :: b :: rest => s.slice a b :: cutPieces s (b :: rest)
-  | _ => []
-
-/-- `slice;…;slice;concat;repair` with the cut positions `cuts` -/
-def roundTrip (s : Seq) (cuts : List Int) : Outcome :=
-  repair (Seq.concat (cutPieces s (0 :: cuts ++ [s.len]))).feats
+/-! `cutPieces s pts` are the slices of `s` between consecutive cut points, `roundTrip s cuts` is
+`repair (concat (cutPieces s (0 :: cuts ++ [len]))).features` (Gts/Lemmas/RepairRoundTrip.lean). -/
 
 /-- FULL STATEMENT (false today, K12B): cutting and repairing restores every feature with a
 table-unique class.  A complement-strand range cut in two comes back as
@@ -308,6 +302,25 @@ theorem restore_order_full_refuted :
   have h2 := congrArg (fun (o : Outcome) => match o with | Outcome.ok t => t.map Feature.key | _ => []) h1
   revert h2
   decide
+
+/-- **Restoration** (any number of cuts): when every feature of the sequence is a forward range
+inside the sequence, is alone in its class and is not a `source` feature, and the cut positions
+are increasing and strictly inside the sequence (`Restorable`), then
+`slice;…;slice;concat;repair` does not panic and returns a table that has, for every grouping
+text, exactly the original feature (key, location with its own partial markers, qualifiers) —
+i.e. the original table **up to the order of the features** (a table is a permutation of the
+concatenation of its classes; the exact order is refuted by `restore_order_full_refuted`).
+`source` features (whose partial markers slicing strips, and which are fused with `force`) are
+covered at class level by `restore_class_partial` with `m = false`, `force = true`, and by the
+oracle. -/
+theorem restore_partial (s : Seq) (cuts : List Int) (h : Restorable s cuts) :
+    ∃ t', roundTrip s cuts = .ok t' ∧ ∀ k, Table.featsOf t' k = Table.featsOf s.feats k :=
+  roundTrip_restores s cuts h
+
+/-- non-vacuity: nested and overlapping partial ranges, three cuts, two of them inside features -/
+example : Restorable ⟨[⟨"gene", ranged 0 7 false true, [["id", "a"]]⟩, ⟨"CDS", ranged 2 5 true false, [["id", "b"]]⟩,
+      ⟨"gene", ranged 4 8 false false, [["id", "c"]]⟩], [97, 99, 103, 116, 97, 99, 103, 116]⟩ [3, 4, 6] :=
+  ⟨by decide, by decide, by decide, by decide⟩
 
 /-- **Slice and concat cut a forward range into `frags`**: the location of `Ranged{s, e}` in the
 piece `[a, b)` of a sequence of length `L`, moved back to offset `a` by `Concat`, is the
